@@ -513,14 +513,19 @@ func withHangConfirmation(prop string, c any, run func() (ev.Outcome, bool)) ev.
 		hangMemo.Store(key, o)
 		return o
 	}
-	o2, hang2 := run()
-	if hang2 {
-		hangConfirmed.Store(true)
-		hangMemo.Store(key, o2)
-		return o2
-	}
-	if o2.Fail != "" {
-		return o2
+	// re-execute up to three times: a hang that depends on a schedule may need more than one try
+	var o2 ev.Outcome
+	for try := 0; try < 3; try++ {
+		var hang2 bool
+		o2, hang2 = run()
+		if hang2 {
+			hangConfirmed.Store(true)
+			hangMemo.Store(key, o2)
+			return o2
+		}
+		if o2.Fail != "" {
+			return o2
+		}
 	}
 	// keep what the non-reproduced time-clause failure looked like (diagnosis of the harness)
 	if prop != "" {
